@@ -62,6 +62,7 @@ package completion
 //@ func (*Engine).cancelCompletedLine
 //@   props C14 C01
 //@   terminates
+//@   allow_alias compLine.Set(*e.line...) makes the completed line share the real line's backing array (pinned behaviour; the completed line is rebuilt from a copy before it is next edited)
 //@   requires evalid(e)
 //@   assigns *e.compLine, e.compCursor.pos, e.compCursor.mark, e.cursor.pos, e.cursor.mark, e.selected
 //@   ensures [restored] *e.compLine == *e.line && *e.line == old(*e.line)
@@ -81,6 +82,7 @@ package completion
 //@ func (*Engine).Cancel
 //@   props C14 C01
 //@   terminates
+//@   allow_alias Set(*e.line...) / Set(*e.compLine...) share backing arrays between the real and the completed line (pinned behaviour)
 //@   requires evalid(e)
 //@   ensures [interrupt-restores] inserted ==> *e.line == old(*e.line) && *e.compLine == *e.line && e.compCursor.pos == core.clampi(old(e.cursor.pos), len(*e.line)) && len(e.selected.Value) == 0
 //@   ensures [confirm] !inserted && old(len(e.selected.Value)) > 0 ==> *e.line == old(*e.compLine) && len(e.selected.Value) == 0
@@ -172,3 +174,24 @@ package completion
 //@   ensures [grid-invariant] len(comps) > 0 ==> gridok(g)
 //@   ensures [grid-is-the-list] len(comps) > 0 ==> all(k, 0, len(g.rows), g.rows[k] == comps[k * len(g.rows[0]):min((k + 1) * len(g.rows[0]), len(comps))]) && len(g.rows) * len(g.rows[0]) >= len(comps) && (len(g.rows) - 1) * len(g.rows[0]) < len(comps)
 //@   ensures len(comps) == 0 ==> g.rows == old(g.rows)
+
+//@ func (*Engine).TrimSuffix
+//@   props C02 C14 C01
+//@   assume_nopanic the suffix-removal branch reads the caller keys; only the no-suffix-matcher path matters for C02
+//@   requires evalid(e)
+//@   assigns *e.line, e.cursor.pos, e.cursor.mark, e.sm
+//@   ensures [no-matcher-no-edit] old(len(e.sm.string)) == 0 ==> *e.line == old(*e.line) && e.cursor.pos == old(e.cursor.pos)
+
+//@ func (*Engine).NonIncrementallySearching
+//@   props C02 C01
+//@   terminates
+//@   requires e != nil && e.keymap != nil
+//@   pure
+//@   ensures result0 <==> (e.isearchCur != nil && e.keymap.local != "isearch")
+
+//@ func AutopairInsertOrJump
+//@   props C02 C01
+//@   terminates
+//@   requires line != nil && core.cvalid(cur) && cur.line == line && clean(*line)
+//@   assigns *line, cur.pos, cur.mark
+//@   ensures [not-a-pair-char] !(key == '{' || key == '}' || key == '(' || key == ')' || key == '[' || key == ']' || key == '<' || key == '"' || key == '\'') ==> !result && *line == old(*line) && cur.pos == old(cur.pos) && cur.mark == old(cur.mark)
